@@ -32,7 +32,7 @@ pub struct Job {
     pub consumer: String,
 }
 
-pub const CONSUMERS: [&str; 9] = ["next", "size_hint_next", "collect", "extend", "count", "fold", "last", "for_each", "nth"];
+pub const CONSUMERS: [&str; 13] = ["next", "size_hint_next", "collect", "extend", "count", "fold", "last", "for_each", "nth", "count_by_value", "last_by_value", "fold_by_value", "collect_by_value"];
 
 impl Job {
     pub fn to_json(&self) -> Value {
@@ -145,6 +145,30 @@ pub fn child_main() -> i32 {
                             Err(m) => return (yields, calls, format!("panic:{m}")),
                         }
                     }
+                }
+                if consumer.ends_with("_by_value") {
+                    // the iterator's own by-value methods (overrides included); unbounded,
+                    // the parent's watchdog is the only limit
+                    let it = st.it;
+                    let c2 = consumer.clone();
+                    let r = guarded(move || -> u64 {
+                        match c2.as_str() {
+                            "count_by_value" => it.count() as u64,
+                            "last_by_value" => {
+                                let _ = it.last();
+                                u64::MAX
+                            }
+                            "fold_by_value" => it.fold(0u64, |a, _| a + 1),
+                            _ => {
+                                let v: Vec<espada::evaluator::Showdown> = it.collect();
+                                v.len() as u64
+                            }
+                        }
+                    });
+                    return match r {
+                        Ok(n) => (n, if n == u64::MAX { 0 } else { n }, "end".to_string()),
+                        Err(m) => (0, 0, format!("panic:{m}")),
+                    };
                 }
                 // the std consumers, bounded by take(budget) so a runaway iterator still ends
                 let cap = budget.min(usize::MAX as u64) as usize;
